@@ -15,6 +15,7 @@ import (
 	"strconv"
 
 	_ "github.com/pion/interceptor/verifh/c03"
+	_ "github.com/pion/interceptor/verifh/c04"
 	_ "github.com/pion/interceptor/verifh/c15"
 	"github.com/pion/interceptor/verifh/hk"
 	"github.com/pion/interceptor/verifh/litmus"
